@@ -69,7 +69,7 @@ type Listener struct {
 var errRefused = errors.New("connection refused")
 
 func (l *Listener) Accept() (net.Conn, error) {
-	vsched.PointWhen("accept", func() bool { return len(l.queue) > 0 || l.closed }, 0)
+	vsched.PointWhenObj("accept", func() bool { return len(l.queue) > 0 || l.closed }, 0, l)
 	if l.closed {
 		return nil, &net.OpError{Op: "accept", Net: "mem", Err: net.ErrClosed}
 	}
@@ -103,7 +103,7 @@ func (l *Listener) IsClosed() bool { return l.closed }
 
 // Dial connects a client; it succeeds as long as the listener is open, whether or not Accept is pending.
 func (n *Net) Dial() (*Conn, error) {
-	vsched.Point("dial")
+	vsched.PointObj("dial", n.L)
 	if n.L.closed {
 		n.log(Event{Side: "cli", Op: "dial", Err: "refused"})
 		return nil, &net.OpError{Op: "dial", Net: "mem", Err: errRefused}
@@ -112,6 +112,7 @@ func (n *Net) Dial() (*Conn, error) {
 	srv := &Conn{net: n, id: n.nconn, side: "srv"}
 	cli := &Conn{net: n, id: n.nconn, side: "cli"}
 	srv.peer, cli.peer = cli, srv
+	srv.pair, cli.pair = srv, srv // the connection as one shared object (both directions, both ends)
 	n.L.queue = append(n.L.queue, srv)
 	n.Conns = append(n.Conns, srv)
 	n.Client = append(n.Client, cli)
@@ -125,6 +126,7 @@ type Conn struct {
 	id         int
 	side       string
 	peer       *Conn
+	pair       *Conn
 	rbuf       []byte
 	closed     bool // closed locally
 	peerClosed bool
@@ -147,9 +149,9 @@ func (c *Conn) Read(p []byte) (int, error) {
 	pastDeadline := dl > 0 && vsched.NowNs() >= dl
 	ready := func() bool { return len(c.rbuf) > 0 || c.peerClosed || c.closed }
 	if c.side == "cli" {
-		vsched.PointWhenH("read", ready, dl)
+		vsched.PointWhenHObj("read", ready, dl, c.pair)
 	} else {
-		vsched.PointWhen("read", ready, dl)
+		vsched.PointWhenObj("read", ready, dl, c.pair)
 	}
 	if pastDeadline && !c.closed {
 		return 0, &net.OpError{Op: "read", Net: "mem", Err: os.ErrDeadlineExceeded}
@@ -170,7 +172,7 @@ func (c *Conn) Read(p []byte) (int, error) {
 }
 
 func (c *Conn) Write(p []byte) (int, error) {
-	vsched.Point("write")
+	vsched.PointObj("write", c.pair)
 	if c.closed {
 		c.net.log(Event{Conn: c.id, Side: c.side, Op: "write", Data: append([]byte(nil), p...), Err: "closed"})
 		return 0, &net.OpError{Op: "write", Net: "mem", Err: net.ErrClosed}
@@ -189,7 +191,7 @@ func (c *Conn) Write(p []byte) (int, error) {
 }
 
 func (c *Conn) Close() error {
-	vsched.Point("close")
+	vsched.PointObj("close", c.pair)
 	c.Closes++
 	if c.closed {
 		c.net.log(Event{Conn: c.id, Side: c.side, Op: "close", Err: "closed"})
